@@ -3,6 +3,7 @@
 use super::common::*;
 use crate::engine::{Ctx, Obs, PropertyDef, Section};
 use crate::gen::circ::{all_kinds, circ_spec, CircParams, CircSpec};
+use crate::oracle::ring::Ring as _;
 use crate::gen::diag::Palette;
 use crate::oracle::csim::{self, Circ, GK};
 use crate::oracle::ring::{Zw, C64};
@@ -155,6 +156,182 @@ fn check(case: &Case, obs: &mut Obs) -> Result<(), String> {
     Ok(())
 }
 
+// ------------------------------------------------------------------------------------------
+// wide circuits: independent blocks of <= 3 qubits on interleaved qubit sets (16-90 qubits in
+// all).  With computational-basis states plugged (in the harness model of the translated
+// diagram) into every block but one, the remaining map is that block's unitary times the other
+// blocks' amplitudes - all computable block by block.
+
+#[derive(Clone, Debug, Serialize, Deserialize)]
+pub struct WideCase {
+    pub blocks: Vec<CircSpec>,
+    pub shuffle: u64,
+    pub open: u16,
+}
+
+fn check_wide_mode<G: GraphLike>(
+    wide: &Circ,
+    want: &Truth,
+    plugs_in: &[(usize, bool)],
+    plugs_out: &[(usize, bool)],
+    simplify: bool,
+    postselect: bool,
+    name: &str,
+    obs: &mut Obs,
+) -> Result<(), String> {
+    use crate::oracle::diag::{snapshot, VK};
+    let qc = wide.to_quizx();
+    let what = format!("{name}: to_graph_with_options({simplify},{postselect}) on {} qubits", wide.n);
+    let g: G = guarded(&what, || qc.to_graph_with_options(simplify, postselect))?;
+    let snap = snapshot(&g).map_err(|e| format!("{what}: malformed diagram: {e}"))?;
+    let mut d = snap.diag;
+    d.check_wellformed().map_err(|e| format!("{what}: malformed diagram: {e}"))?;
+    if d.inputs.len() != wide.n || d.outputs.len() != wide.n {
+        return Err(format!("{what}: {} inputs and {} outputs", d.inputs.len(), d.outputs.len()));
+    }
+    // an X spider with phase 0 / pi on a wire is sqrt2 |0> / sqrt2 |1>
+    for &(pos, bit) in plugs_in {
+        let v = d.inputs[pos];
+        d.verts[v].kind = VK::X;
+        d.verts[v].phase = (bit as i64, 1);
+    }
+    for &(pos, bit) in plugs_out {
+        let v = d.outputs[pos];
+        d.verts[v].kind = VK::X;
+        d.verts[v].phase = (bit as i64, 1);
+    }
+    let keep_in: Vec<usize> = (0..wide.n).filter(|p| !plugs_in.iter().any(|(q, _)| q == p)).map(|p| d.inputs[p]).collect();
+    let keep_out: Vec<usize> = (0..wide.n).filter(|p| !plugs_out.iter().any(|(q, _)| q == p)).map(|p| d.outputs[p]).collect();
+    d.inputs = keep_in;
+    d.outputs = keep_out;
+    let got = match truth_of(&d) {
+        Ok(t) => t,
+        Err(crate::oracle::zxeval::EvalErr::TooBig) => {
+            obs.skip("oracle-too-big");
+            return Ok(());
+        }
+        Err(e) => return Err(format!("{what}: {e:?}")),
+    };
+    same_truth(want, &got, REL_TOL).map_err(|e| {
+        format!("{what}: with basis states on all blocks but one, the remaining map differs from that block's map times the other blocks' amplitudes: {e}")
+    })
+}
+
+fn check_wide(c: &WideCase, obs: &mut Obs) -> Result<(), String> {
+    use crate::engine::mix;
+    use crate::oracle::ring::Ring;
+    let blocks: Vec<Circ> = c.blocks.iter().map(|b| b.to_circ()).collect();
+    if blocks.is_empty() {
+        return Ok(());
+    }
+    let n: usize = blocks.iter().map(|b| b.n).sum();
+    // qubit sets: a shuffled assignment of positions to blocks; a block's j-th qubit is the j-th
+    // smallest position it owns
+    let mut owner: Vec<usize> = blocks.iter().enumerate().flat_map(|(b, blk)| std::iter::repeat(b).take(blk.n)).collect();
+    let mut keys: Vec<(u64, usize)> = (0..n).map(|i| (mix(c.shuffle, i as u64), i)).collect();
+    keys.sort();
+    owner = keys.iter().map(|&(_, i)| owner[i]).collect();
+    let mut qmap: Vec<Vec<usize>> = vec![vec![]; blocks.len()];
+    for (pos, &b) in owner.iter().enumerate() {
+        qmap[b].push(pos);
+    }
+    // gates: every block's gates in order, blocks interleaved by sorted keys
+    let mut tagged: Vec<(u64, usize, usize)> = vec![];
+    for (b, blk) in blocks.iter().enumerate() {
+        let mut ks: Vec<u64> = (0..blk.gates.len()).map(|i| mix(c.shuffle ^ 0x9e37, (b * 1000 + i) as u64)).collect();
+        ks.sort();
+        for (i, k) in ks.into_iter().enumerate() {
+            tagged.push((k, b, i));
+        }
+    }
+    tagged.sort();
+    let gates: Vec<csim::MGate> = tagged
+        .iter()
+        .map(|&(_, b, i)| {
+            let mut g = blocks[b].gates[i].clone();
+            g.qs = g.qs.iter().map(|&q| qmap[b][q]).collect();
+            g
+        })
+        .collect();
+    let wide = Circ { n, gates };
+    let exact = wide.all_phases_quarter();
+    obs.class_if(n >= 33, "qubits>=33");
+    obs.class_if(n >= 65, "qubits>=65");
+    obs.class_if(exact, "exact");
+    if wide.gates.iter().any(|g| g.k.is_entangling()) {
+        obs.nontrivial();
+    }
+    // per-block maps; basis inputs x_b and outputs y_b with non-zero amplitude for all but `open`
+    let open = crate::gen::idx(c.open, blocks.len());
+    let mut plugs_in = vec![];
+    let mut plugs_out = vec![];
+    let mut factor_z = Zw::ONE;
+    let mut factor_c = C64(num::Complex::new(1.0, 0.0));
+    let mut nplug = 0i32;
+    let mut open_truth: Option<Truth> = None;
+    for (b, blk) in blocks.iter().enumerate() {
+        let t = if exact {
+            Truth::Exact(csim::simulate::<Zw>(blk).map_err(|e| format!("{e:?}"))?)
+        } else {
+            Truth::Float(csim::simulate::<C64>(blk).map_err(|e| format!("{e:?}"))?)
+        };
+        if b == open {
+            open_truth = Some(t);
+            continue;
+        }
+        let s = blk.n;
+        let x = (mix(c.shuffle ^ 0x1234, b as u64) as usize) & ((1 << s) - 1);
+        let y0 = (mix(c.shuffle ^ 0x4321, b as u64) as usize) & ((1 << s) - 1);
+        // first output string (cyclically from y0) with a non-zero amplitude
+        let mut chosen = None;
+        for dy in 0..(1usize << s) {
+            let y = (y0 + dy) & ((1 << s) - 1);
+            let idx = (x << s) | y;
+            let nz = match &t {
+                Truth::Exact(t) => !t.data[idx].is_zero(),
+                Truth::Float(t) => t.data[idx].0.norm() > 1e-6,
+            };
+            if nz {
+                chosen = Some(y);
+                break;
+            }
+        }
+        let y = chosen.ok_or("harness: a unitary block has a zero column")?;
+        let idx = (x << s) | y;
+        match &t {
+            Truth::Exact(t) => factor_z = factor_z.mul(&t.data[idx]),
+            Truth::Float(t) => factor_c = factor_c.mul(&t.data[idx]),
+        }
+        for j in 0..s {
+            plugs_in.push((qmap[b][j], (x >> (s - 1 - j)) & 1 == 1));
+            plugs_out.push((qmap[b][j], (y >> (s - 1 - j)) & 1 == 1));
+            nplug += 2;
+        }
+    }
+    let want = match open_truth.unwrap() {
+        Truth::Exact(mut t) => {
+            let f = factor_z.mul(&Zw::sqrt2_pow(nplug));
+            for x in t.data.iter_mut() {
+                *x = x.mul(&f);
+            }
+            Truth::Exact(t)
+        }
+        Truth::Float(mut t) => {
+            let f = factor_c.mul(&C64::sqrt2_pow(nplug));
+            for x in t.data.iter_mut() {
+                *x = x.mul(&f);
+            }
+            t.scale = f.0.norm();
+            Truth::Float(t)
+        }
+    };
+    for (s, p) in [(false, false), (true, true)] {
+        check_wide_mode::<quizx::vec_graph::Graph>(&wide, &want, &plugs_in, &plugs_out, s, p, "vec", obs)?;
+        check_wide_mode::<quizx::hash_graph::Graph>(&wide, &want, &plugs_in, &plugs_out, s, p, "hash", obs)?;
+    }
+    Ok(())
+}
+
 pub fn def(ctx: &Ctx) -> PropertyDef {
     let t = ctx.tier;
     let mk = move |pal: Palette| {
@@ -181,6 +358,34 @@ pub fn def(ctx: &Ctx) -> PropertyDef {
         sections: vec![
             Section::random("exact", ctx.cases(2500, 60000), mk(Palette::ExactT), check),
             Section::random("general", ctx.cases(1500, 40000), mk(Palette::General), check),
+            Section::random(
+                "wide-blocks",
+                ctx.cases(40, 1000),
+                move || {
+                    use crate::gen::circ::unitary_kinds;
+                    use proptest::prelude::*;
+                    let block = |pal| {
+                        circ_spec(CircParams {
+                            min_q: 1,
+                            max_q: 3,
+                            max_gates: 6,
+                            kinds: unitary_kinds(),
+                            palette: pal,
+                            max_var: 0,
+                        })
+                    };
+                    (
+                        prop_oneof![
+                            4 => prop::collection::vec(block(Palette::ExactT), 4..=45),
+                            1 => prop::collection::vec(block(Palette::General), 4..=20),
+                        ],
+                        any::<u64>(),
+                        any::<u16>(),
+                    )
+                        .prop_map(|(blocks, shuffle, open)| WideCase { blocks, shuffle, open })
+                },
+                check_wide,
+            ),
         ],
     }
 }
